@@ -25,14 +25,14 @@ theorem addRefs_err (sf : Node → Bool) (lhs : Node) : ∀ (rs : List Node) (g 
     · exact addRefs_err sf lhs rs _ x h
     · cases h; rfl
 
-theorem addEqs_err (sf : Node → Bool) : ∀ (es : List Eqn) (g : Graph) (x : Err),
-    addEqs sf es g = .error x → x = .badRef
+theorem addEqs_err (key : Node → String) (sf : Node → Bool) : ∀ (es : List Eqn) (g : Graph) (x : Err),
+    addEqs key sf es g = .error x → x = .badRef
   | [], g, x, h => by simp [addEqs] at h
   | e :: es, g, x, h => by
     simp only [addEqs] at h
-    cases h1 : addRefs sf e.lhs e.refs g with
-    | error y => rw [h1] at h; cases h; exact addRefs_err sf e.lhs e.refs g _ h1
-    | ok g1 => rw [h1] at h; exact addEqs_err sf es _ x h
+    cases h1 : addRefs sf e.lhs (sortStr key e.refs) g with
+    | error y => rw [h1] at h; cases h; exact addRefs_err sf e.lhs (sortStr key e.refs) g _ h1
+    | ok g1 => rw [h1] at h; exact addEqs_err key sf es _ x h
 
 /-- `Model.graph` never raises the errors whose python class depends on the recursion mode -/
 theorem buildGraph_errName (key : Node → String) (eqs : List Eqn) (x : Err) (recurse : Bool)
@@ -41,7 +41,7 @@ theorem buildGraph_errName (key : Node → String) (eqs : List Eqn) (x : Err) (r
   by_cases h1 : (eqs.map (·.lhs)).Nodup
   · by_cases h2 : ((eqs.map (·.lhs)).map key).Nodup
     · simp only [h1, h2, not_true_eq_false, if_false] at h
-      rw [addEqs_err _ _ _ _ h]; rfl
+      rw [addEqs_err _ _ _ _ _ h]; rfl
     · simp only [h1, h2, not_true_eq_false, not_false_eq_true, if_false, if_true] at h
       cases h; rfl
   · simp only [h1, not_false_eq_true, if_true] at h
